@@ -527,8 +527,8 @@ def check_time_average(run, pkg):
     q = P / ((t1 - t0) * dt)
     tr = S.Translator(atom_of, True)
     gw = tr.tr(w)
-    forms_exact = [sp.Function("builtins.int")(q), sp.Function("math.floor")(q), sp.Function("numpy.floor")(q),
-                   sp.Function("builtins.int")(sp.Function("numpy.floor")(q)), sp.Function("builtins.int")(sp.Function("math.floor")(q))]
+    forms_exact = [S.PyInt(q), sp.floor(q), sp.floor(q),
+                   S.PyInt(sp.floor(q)), S.PyInt(sp.floor(q))]
     is_trunc = any(S.decide_equal(gw, f_)[0] for f_ in forms_exact)
     ok_rows = False
     shp = res[2][0] if res[0] == "call" and res[1] == "numpy.zeros" and res[2] else None
